@@ -1,7 +1,7 @@
 (* Property C07 -- theorems only (R instance of Model/Steps.v; the binary64
    instance of the same definitions is executed against the implementation). *)
 From Coq Require Import Reals List Arith Bool Lia Lra.
-From NV Require Import Base.Exn Model.FitCore Model.Steps Model.Poc Model.Median Proofs.FitCoreP Proofs.StepsP Proofs.MedianP Proofs.MedianWideP Proofs.TieP.
+From NV Require Import Base.Exn Model.FitCore Model.Steps Model.Poc Model.Median Proofs.FitCoreP Proofs.StepsP Proofs.MedianP Proofs.MedianWideP Proofs.TieP Proofs.TieStrictP Proofs.TieTermP Proofs.SmoothTermP.
 Import ListNotations.
 Local Open Scope R_scope.
 
@@ -211,6 +211,67 @@ Theorem C07_smooth_first_loop_terminates : forall fuel w data,
   (2 * length data + 1 <= 2 ^ fuel * (w + 1))%nat ->
   exists w' s, r_widen (S fuel) w data = Ok (w', s).
 Proof. exact widen_terminates. Qed.
+
+(* the tie-breaking loop: one pass resolves the first run of equal neighbours for good.
+   When that run ends inside the array (first_dup gives its first pair p, p+1; lead its
+   length), every neighbour pair of the run and the pair that leaves it becomes a strict
+   step in the direction of the (weakly monotone) data, and no sample outside the run
+   moves -- so a pass creates no new tie and removes all ties of the run.  (The run that
+   touches the last sample moves that sample only; termination of the loop as a whole is
+   not proved.) *)
+Theorem C07_tiebreak_pass_resolves_run : forall s p, first_dup s = Some p ->
+  (S (p + lead (skipn p s)) < length s)%nat ->
+  (asc_adj s -> forall i, (p <= i <= p + lead (skipn p s))%nat ->
+     nth i (r_tb_update s (r_find_equal s 0 false)) 0
+     < nth (S i) (r_tb_update s (r_find_equal s 0 false)) 0) /\
+  (desc_adj s -> forall i, (p <= i <= p + lead (skipn p s))%nat ->
+     nth (S i) (r_tb_update s (r_find_equal s 0 false)) 0
+     < nth i (r_tb_update s (r_find_equal s 0 false)) 0) /\
+  (forall i, (i <= p \/ p + lead (skipn p s) < i)%nat ->
+     nth i (r_tb_update s (r_find_equal s 0 false)) 0 = nth i s 0).
+Proof.
+  intros s p F H. split; [|split].
+  - intros Hs. exact (tb_pass_resolves_asc s p Hs F H).
+  - intros Hs. exact (tb_pass_resolves_desc s p Hs F H).
+  - exact (tb_pass_frame s p F H).
+Qed.
+
+(* ... and with it the loop: every pass removes at least one pair of equal neighbours
+   (the run inside the array disappears; a run that touches the last sample loses its last
+   pair, because the last sample moves by a positive multiple of the first step), weak
+   monotonicity and "first sample <> last sample" are kept, so after at most (number of
+   tied pairs) passes the data are pairwise distinct *)
+Theorem C07_tiebreak_terminates : forall m s, (ties s <= m)%nat ->
+  (live_asc s \/ live_desc s) -> exists out, r_tiebreak (S m) s = Ok out.
+Proof.
+  intros m s Hm [H|H]; [apply tiebreak_terminates_asc | apply tiebreak_terminates_desc]; assumption.
+Qed.
+
+(* the whole function returns -- no ValueError -- when the doubling sequence can reach a
+   window of twice the array (2n + 1 <= 2^(max_iter-1) (w+1)), the filter output the first
+   loop ends with has fewer tied neighbour pairs than the budget, and it is not constant.  (Constant
+   filtered data cannot be resolved: every increment is a multiple of a zero step.) *)
+Theorem C07_smooth_terminates : forall m w data,
+  (2 * length data + 1 <= 2 ^ m * (w + 1))%nat ->
+  (forall w' s, r_widen (S m) w data = Ok (w', s) ->
+     (ties s <= m)%nat /\ nth 0 s 0 <> nth (length s - 1) s 0) ->
+  exists out, r_smooth (S m) w data = Ok out.
+Proof. exact smooth_terminates_ties. Qed.
+
+(* (arrays of at most max_iter samples meet the bound on the tied pairs by their length) *)
+Theorem C07_smooth_terminates_short : forall m w data,
+  (2 * length data + 1 <= 2 ^ m * (w + 1))%nat ->
+  (length data <= S m)%nat ->
+  (forall w' s, r_widen (S m) w data = Ok (w', s) -> nth 0 s 0 <> nth (length s - 1) s 0) ->
+  exists out, r_smooth (S m) w data = Ok out.
+Proof. exact smooth_terminates. Qed.
+
+(* the last hypothesis is necessary: on constant data (two or more samples) a pass changes
+   nothing, so the loop runs out of iterations whatever the budget *)
+Theorem C07_tiebreak_constant_raises : forall s, (2 <= length s)%nat ->
+  (forall i, (i < length s)%nat -> nth i s 0 = nth 0 s 0) ->
+  forall fuel, r_tiebreak fuel s = Err ValueError.
+Proof. exact tiebreak_constant_raises. Qed.
 
 Example C07_first_loop_bound_met : (2 * 200 + 1 <= 2 ^ 5 * (15 + 1))%nat /\ reaches_over 63 31.
 Proof. split; [simpl; lia | unfold reaches_over; simpl; lia]. Qed.
